@@ -23,6 +23,8 @@ var faultSites = []string{
 	"rules-unknown", "rules-failed", "rules-denied", "rules-short", "rules-empty",
 	"store-fetch-error", "store-write-error", "store-write-error-behind-refused-entry", "record-wrong-length", "record-undecodable", "store-closed",
 	"sign-error", "domain-31-bytes", "domain-33-bytes", "data-31-bytes",
+	// every entry from the position to the end of the batch carries the same unusable input
+	"domain-31-bytes-run", "data-31-bytes-run",
 }
 
 func siteApplies(site, kind string, size int) bool {
@@ -34,6 +36,10 @@ func siteApplies(site, kind string, size int) bool {
 		return kind == "atts" && size >= 2
 	case "data-31-bytes":
 		return kind == "gen" || kind == "multi"
+	case "data-31-bytes-run":
+		return kind == "multi" && size >= 3
+	case "domain-31-bytes-run":
+		return (kind == "multi" || kind == "atts") && size >= 3
 	}
 	return true
 }
@@ -118,6 +124,7 @@ func runFaultMatrix(t *testing.T, rc *RunCtx) {
 	e := &o.Entries[fc.Pos]
 	kn := pop.Accts[e.Acct].KName
 	whole := false
+	runFrom := -1
 	action := byte(2)
 	if fc.Kind == "prop" {
 		action = 3
@@ -180,6 +187,19 @@ func runFaultMatrix(t *testing.T, rc *RunCtx) {
 		e.Domain = append(append([]byte{}, e.Domain...), 0x55)
 	case "data-31-bytes":
 		e.Data = e.Data[:31]
+	case "data-31-bytes-run", "domain-31-bytes-run":
+		for i := fc.Pos; i < len(o.Entries); i++ {
+			if fc.Site == "data-31-bytes-run" {
+				o.Entries[i].Data = e.Data[:31]
+				o.Entries[i].Domain = e.Domain
+			} else {
+				o.Entries[i].Domain = e.Domain[:31]
+				if o.Kind == "multi" {
+					o.Entries[i].Data = e.Data
+				}
+			}
+		}
+		runFrom = fc.Pos
 	}
 	// Store faults are injected by the scheduler at the storage yield points.
 	w.s.cfg.Fault = func(s *Sched, p *Park) Resume {
@@ -222,6 +242,10 @@ func runFaultMatrix(t *testing.T, rc *RunCtx) {
 		for i := range o.Entries {
 			check(i)
 		}
+	} else if runFrom >= 0 {
+		for i := runFrom; i < len(o.Entries); i++ {
+			check(i)
+		}
 	} else if fc.Site == "rules-short" {
 		check(len(o.Entries) - 1)
 	} else {
@@ -229,7 +253,7 @@ func runFaultMatrix(t *testing.T, rc *RunCtx) {
 	}
 	// Reach: the planned fault must actually have fired (except input-shaped faults).
 	switch fc.Site {
-	case "sealed-account", "record-wrong-length", "record-undecodable", "store-closed", "domain-31-bytes", "domain-33-bytes", "data-31-bytes":
+	case "sealed-account", "record-wrong-length", "record-undecodable", "store-closed", "domain-31-bytes", "domain-33-bytes", "data-31-bytes", "domain-31-bytes-run", "data-31-bytes-run":
 		rc.Stats.Inc("fault_input:"+fc.Site, 1)
 	default:
 		if len(plan.Fired) == 0 {
